@@ -1000,7 +1000,37 @@ def _module_const_seqs(tree):
     return {k: v for k, v in val.items() if count.get(k) == 1 and k not in rebound}
 
 
-def _loop_sources(body, pars, consts, partial_names=()):
+def _record_classes(tree):
+    """module-level named-tuple classes: name -> field names in order.  `class X(NamedTuple): a: T; b: T` (fields without
+    defaults, docstring allowed, nothing else in the body) and `X = namedtuple("X", ["a", "b"])` / `"a b"` / `"a, b"`"""
+    imap = _import_map(tree, "m.py")
+    def is_(node, mod, name):
+        t = ast.unparse(node)
+        return imap.get(t) == ("from", mod, name) or ("." in t and imap.get(t.split(".")[0]) == ("module", mod) and t.split(".", 1)[1] == name)
+    out, count = {}, {}
+    for st in tree.body:
+        for n in ([ast.Name(id=st.name, ctx=ast.Store())] if isinstance(st, (ast.FunctionDef, ast.AsyncFunctionDef, ast.ClassDef))
+                  else ast.walk(st)):
+            if isinstance(n, ast.Name) and not isinstance(n.ctx, ast.Load):
+                count[n.id] = count.get(n.id, 0) + 1
+        if isinstance(st, ast.ClassDef) and len(st.bases) == 1 and is_(st.bases[0], "typing", "NamedTuple") \
+                and not st.keywords and not st.decorator_list:
+            b = body_no_doc(st)
+            if b and all(isinstance(x, ast.AnnAssign) and isinstance(x.target, ast.Name) and x.value is None for x in b):
+                out[st.name] = [x.target.id for x in b]
+        elif isinstance(st, ast.Assign) and len(st.targets) == 1 and isinstance(st.targets[0], ast.Name) \
+                and isinstance(st.value, ast.Call) and is_(st.value.func, "collections", "namedtuple") \
+                and len(st.value.args) == 2 and not st.value.keywords:
+            f = st.value.args[1]
+            if isinstance(f, ast.Constant) and isinstance(f.value, str):
+                out[st.targets[0].id] = f.value.replace(",", " ").split()
+            elif isinstance(f, (ast.Tuple, ast.List)) and all(isinstance(e, ast.Constant) and isinstance(e.value, str) for e in f.elts):
+                out[st.targets[0].id] = [e.value for e in f.elts]
+    rebound = {nm for n in ast.walk(tree) if isinstance(n, ast.Global) for nm in n.names}
+    return {k: v for k, v in out.items() if count.get(k) == 1 and k not in rebound and len(set(v)) == len(v)}
+
+
+def _loop_sources(body, pars, consts, partial_names=(), records=None):
     """`for .. in NAME` (or in zip / enumerate / .items() over names) where NAME is bound ONCE, before the loop and outside any
     loop, to a tuple / list / dict literal of constants and never-rebound names, or is a module-level tuple of constants:
     the name in the loop header is replaced by the literal, so that the loop can be unrolled.  The assignment itself stays
@@ -1053,8 +1083,31 @@ def _loop_sources(body, pars, consts, partial_names=()):
             # `p = partial(f, a, k=x)` ... `p(b, j=y)`  ==  `f(a, b, k=x, j=y)`: p bound once (outside loops, earlier in an
             # enclosing statement list), used exactly once, the names in the bound arguments never rebound afterwards
             part = {nm: v for nm, v in avail.items() if v[0] == "partial" and fixed_before(nm, here)}
-            if part:
+            recs = {nm: v[1] for nm, v in avail.items() if v[0] == "record" and fixed_before(nm, here)}
+            if part or recs:
                 class Calls(ast.NodeTransformer):
+                    # `v = X(e1, e2)` (X a named-tuple class with fields a, b) ... `v.a` / `v[0]`  ==  e1
+                    def visit_Attribute(self, n):
+                        self.generic_visit(n)
+                        if isinstance(n.value, ast.Name) and n.value.id in recs and isinstance(n.ctx, ast.Load) \
+                                and n.attr in recs[n.value.id][0]:
+                            changed[0] = True
+                            return copy.deepcopy(recs[n.value.id][1][recs[n.value.id][0].index(n.attr)])
+                        return n
+
+                    def visit_Subscript(self, n):
+                        self.generic_visit(n)
+                        if isinstance(n.value, ast.Name) and n.value.id in recs and isinstance(n.ctx, ast.Load):
+                            fields, vals = recs[n.value.id]
+                            try:
+                                i = int_const(n.slice)
+                            except Exception:
+                                return n
+                            if -len(vals) <= i < len(vals):
+                                changed[0] = True
+                                return copy.deepcopy(vals[i])
+                        return n
+
                     def visit_Call(self, n):
                         self.generic_visit(n)
                         if isinstance(n.func, ast.Name) and n.func.id in part and not any(isinstance(a, ast.Starred) for a in n.args) \
@@ -1074,7 +1127,7 @@ def _loop_sources(body, pars, consts, partial_names=()):
                 names = {n.id for n in ast.walk(st.iter) if isinstance(n, ast.Name) and isinstance(n.ctx, ast.Load)}
                 m = {}
                 for nm in names:
-                    if nm in avail and avail[nm][0] != "partial" and fixed_before(nm, here):
+                    if nm in avail and avail[nm][0] not in ("partial", "record") and fixed_before(nm, here):
                         lit, _ = avail[nm]
                         n_uses = sum(1 for n in ast.walk(st.iter) if isinstance(n, ast.Name) and n.id == nm)
                         if isinstance(lit, ast.Tuple) or loads.get(nm, 0) == n_uses:
@@ -1104,6 +1157,21 @@ def _loop_sources(body, pars, consts, partial_names=()):
                                 for a in list(v.args) + [kw.value for kw in v.keywords] for n in ast.walk(a)) \
                         and all(fixed_before(n.id, here) for n in ast.walk(v) if isinstance(n, ast.Name)):
                     avail[tgt.id] = ("partial", v)
+                fields = (records or {}).get(v.func.id) if isinstance(v, ast.Call) and isinstance(v.func, ast.Name) \
+                    and stores.get(v.func.id, 0) == 0 and v.func.id not in pars else None
+                if fields is not None and not any(kw.arg is None for kw in v.keywords):
+                    vals = None
+                    if len(v.args) == 1 and isinstance(v.args[0], ast.Starred) and not v.keywords and _chain_root(v.args[0].value) is not None:
+                        vals = [ast.Subscript(value=copy.deepcopy(v.args[0].value), slice=ast.Constant(value=i), ctx=ast.Load())
+                                for i in range(len(fields))]           # X(*seq): the call itself raises unless len(seq) == len(fields)
+                    elif not any(isinstance(a, ast.Starred) for a in v.args):
+                        m = dict(zip(fields, v.args))
+                        if len(v.args) <= len(fields) and all(kw.arg in fields and kw.arg not in m for kw in v.keywords):
+                            m.update({kw.arg: kw.value for kw in v.keywords})
+                            if set(m) == set(fields) and all(_simple_arg(e) for e in m.values()):
+                                vals = [m[f] for f in fields]
+                    if vals is not None and all(fixed_before(n.id, here) for n in ast.walk(v) if isinstance(n, ast.Name)):
+                        avail[tgt.id] = ("record", (fields, vals))
             for f in ("body", "orelse", "finalbody"):
                 sub = getattr(st, f, None)
                 if isinstance(sub, list):
@@ -1207,7 +1275,7 @@ def _normalised(tree, fname, keep):
     imap = _import_map(tree, getattr(tree, "_rel", "m.py"))
     partial_names = {k for k, v in imap.items() if v == ("from", "functools", "partial")} | \
         {k + ".partial" for k, v in imap.items() if v == ("module", "functools")}
-    body, changed = _loop_sources(body, pars, _module_const_seqs(tree), partial_names)
+    body, changed = _loop_sources(body, pars, _module_const_seqs(tree), partial_names, _record_classes(tree))
     if changed:
         body = _simplify(body, funcs, set(keep), counter)
     body = _expand_aliases(_flatten(body), pars)
@@ -1476,6 +1544,10 @@ def _module_state(tree, roots, label):
         if isinstance(v, ast.Call) and ast.unparse(v.func) in ("frozenset", "tuple", "range", "MappingProxyType", "types.MappingProxyType") \
                 and not v.keywords and all(lit(a) or container(a) for a in v.args):
             return True
+        if isinstance(v, ast.Call) and ast.unparse(v.func) in ("namedtuple", "collections.namedtuple") \
+                and ast.unparse(v.func).split(".")[0] in imported and all(lit(a) or container(a) for a in v.args) \
+                and all(k.arg is not None and lit(k.value) for k in v.keywords):
+            return True                                      # a named-tuple CLASS made of literals: nothing to mutate
         return _is_literal_const(v)
 
     def container(v):
